@@ -1122,6 +1122,15 @@ def gen_plan(seed: int, cfg: dict) -> dict:
         if r.random() < 0.02:
             merged.append({"op": "gc", "n": r.randrange(10, 5000)})
 
+    # some finished noise programs are dropped (all references released, collected): their
+    # addresses - and with natural identities their id() values - are reused by later objects
+    natural_ids = r.random() < 0.25
+    noise_pids = [p for p in order if not programs[p]["target"]]
+    if noise_pids and r.random() < (0.6 if natural_ids else 0.2):
+        for pid in r.sample(noise_pids, min(len(noise_pids), r.randrange(1, 3))):
+            last = max(i for i, o in enumerate(merged) if o.get("p") == pid)
+            merged.insert(r.randrange(last + 1, len(merged) + 1), {"op": "drop", "p": pid})
+
     # churn: bulk allocation by "other code" in the process (absolute counter values, addresses)
     if r.random() < 0.35:
         for _ in range(r.randrange(1, 4)):
@@ -1230,7 +1239,9 @@ def gen_plan(seed: int, cfg: dict) -> dict:
         "programs": programs,
         "ops": ops,
         "tail_start": len(merged),
-        "idhash_seed": sub_rng(seed, "idhash").getrandbits(48),
+        # object identities: a seeded relabelling in most runs; natural addresses (no seam, objects
+        # may die and their addresses be reused) in the rest
+        "idhash_seed": sub_rng(seed, "idhash").getrandbits(48) if natural_ids is False else None,
     }
 
 
